@@ -1,7 +1,8 @@
 #!/usr/bin/env python3
 """Import behaviour-preserving refactorings delivered by the refactoring sub-agents
 (/tmp/refac/<id>/_seed/<V>/{patch.diff,meta.json}) as neutral self-test variants."""
-import json, glob, shutil, sys
+import json, glob, os, shutil, sys
+tag = os.environ.get('REFAC_TAG', 'r')        # REFAC_TAG=r2 for the second campaign
 root = sys.argv[1] if len(sys.argv) > 1 and sys.argv[1].startswith('/') else '/tmp/refac'
 ids = [a for a in sys.argv[1:] if not a.startswith('/')]
 n = 0
@@ -12,7 +13,7 @@ for pid in ids:
             meta = json.load(open(d + '/meta.json'))
         except Exception:
             meta = {}
-        name = '%s-r-%s' % (pid, v)
+        name = '%s-%s-%s' % (pid, tag, v)
         shutil.copy(d + '/patch.diff', '/verif/selftest/neutral/patches/%s.diff' % name)
         json.dump({'property': pid, 'expect': 'PASS',
                    'why': 'independent refactoring (%s): %s' % (meta.get('kind', '?'), (meta.get('summary') or '')[:200]),
